@@ -19,6 +19,7 @@
 #undef malloc
 #undef free
 #undef realloc
+#include "vf_frame.h"
 #define INJECTED (vf_fail_at != 0 && vf_nreq >= vf_fail_at)
 static int sat(double d) { return d >= INT_MAX ? INT_MAX : d <= (double)INT_MIN ? INT_MIN : (int)d; }
 
@@ -29,6 +30,7 @@ int main(VF_MAIN_ARGS)
     for (i = 0; i <= CNT; i++) { IN.sv[i][TS] = 0; strs[i] = (const char *)IN.sv[i]; VF_ASSUME(IN.dv[i] == IN.dv[i] && IN.fv[i] == IN.fv[i]); }
     VF_ASSUME(IN.count >= -1 && IN.count <= CNT);
     vf_fail_at = IN.fail_at;
+    VF_FRAME_BEGIN();
 #ifdef WHICH
     w = WHICH;                  /* bulk constructors: one query each */
 #else
@@ -47,6 +49,7 @@ int main(VF_MAIN_ARGS)
     case 14: r = cJSON_CreateDoubleArray((IN.nullarg & 1) ? (const double *)0 : IN.dv, IN.count); break;
     default: r = cJSON_CreateStringArray((IN.nullarg & 1) ? (const char *const *)0 : strs, IN.count); break;
     }
+    VF_FRAME_END(0);
     if (r == 0) {
         if (w >= 12 && ((IN.nullarg & 1) || IN.count < 0)) VF_AP(6, vf_nreq == 0, "C06 NULL input or negative count is refused");
         else VF_AP(8, INJECTED, "C08 constructors fail only after a refused request");
